@@ -360,6 +360,8 @@ pub struct SimOut {
     pub probes: BTreeMap<&'static str, u64>,
     pub coord_states: BTreeSet<u64>,
     pub n_tasks: usize,
+    /// pool tasks that were still inside their job when Txtpp::run returned
+    pub late_tasks: Vec<String>,
     /// process is no longer safe to continue in (threads left parked)
     pub poisoned: bool,
 }
@@ -809,7 +811,39 @@ pub fn simulate(base: &Path, cfg: txtpp::Config, sched: &Sched, opts: &SimOpts) 
         sim.cv.notify_all();
     }
 
-    let poisoned = hang.is_some() || diverged.is_some();
+    let mut poisoned = hang.is_some() || diverged.is_some();
+    // the run has returned: no pool task may still be inside its job (Drop joins the pool)
+    let mut late_tasks: Vec<String> = vec![];
+    if !poisoned {
+        let mut st = sim.st.lock().unwrap();
+        late_tasks = st
+            .tasks
+            .iter()
+            .filter(|(_, t)| matches!(t.state, TS::AtBegin | TS::AtIo | TS::AtEnd | TS::Running | TS::Sending | TS::BlockedSend))
+            .map(|(n, _)| n.clone())
+            .collect();
+        if !late_tasks.is_empty() {
+            // let them go and see what they do (a send into a closed channel panics)
+            st.aborting = true;
+            st.log.push(format!("run returned with tasks still in their job: {late_tasks:?}"));
+            sim.cv.notify_all();
+            let t0 = Instant::now();
+            loop {
+                let live = st
+                    .tasks
+                    .values()
+                    .any(|t| matches!(t.state, TS::AtBegin | TS::AtIo | TS::AtEnd | TS::Running | TS::Sending | TS::BlockedSend));
+                if !live || t0.elapsed() > Duration::from_secs(10) {
+                    if live {
+                        poisoned = true;
+                    }
+                    break;
+                }
+                let (g, _) = sim.cv.wait_timeout(st, Duration::from_millis(50)).unwrap();
+                st = g;
+            }
+        }
+    }
     if !poisoned {
         let _ = h.join();
     } else {
@@ -836,6 +870,7 @@ pub fn simulate(base: &Path, cfg: txtpp::Config, sched: &Sched, opts: &SimOpts) 
         probes: st.probes.clone(),
         coord_states: st.coord_states.clone(),
         n_tasks: st.tasks.len(),
+        late_tasks,
         poisoned,
     }
 }
